@@ -200,6 +200,8 @@ Global Hint Resolve st_subscribe st_unsubscribe : pres_st.
 Lemma st_with_handle h k : (forall n, pres Rst (k n)) -> pres Rst (with_handle h k). Proof. intros; unfold with_handle; go_st. Qed.
 Global Hint Extern 1 (pres Rst (with_handle _ _)) => (apply st_with_handle; intros ?; go_st) : pres_st.
 Global Hint Extern 1 (pres Rst (with_var_handle _ _)) => (apply st_with_var_handle; go_st) : pres_st.
+Lemma st_set_max_height n : pres Rst (set_max_height_allowed n). Proof. prim set_max_height_allowed. Qed.
+Global Hint Resolve st_set_max_height : pres_st.
 Lemma st_run_effect fuel a e : pres Rst (run_effect fuel a e).
 Proof. destruct e; unfold run_effect; go_st. Qed.
 Global Hint Resolve st_run_effect : pres_st.
@@ -255,8 +257,7 @@ Lemma st_run_ouh n nu now : pres Rst (run_on_update_handlers n nu now). Proof. p
 Global Hint Resolve st_run_ouh : pres_st.
 Lemma st_stabilise_loop fuel : pres Rst (stabilise_loop fuel).
 Proof. induction fuel as [|f IH]; simpl; go_st. Qed.
-Lemma st_set_max_height n : pres Rst (set_max_height_allowed n). Proof. prim set_max_height_allowed. Qed.
-Global Hint Resolve st_stabilise_loop st_set_max_height : pres_st.
+Global Hint Resolve st_stabilise_loop : pres_st.
 
 Lemma st_stabilise_start_links fuel : pres Rst (stabilise_start_links fuel).
 Proof. prim stabilise_start_links. Qed.
